@@ -25,11 +25,13 @@ RULE = ("random histories (1-60 operations) of set/change/delete range "
         "add/remove/modify/invert polygon filters, remove-invalid and enable "
         "switches, limit events (0, negative, below/at/above the number of "
         "qualifying events), manual exclusions, reset_filter and "
-        "apply_filter (optionally with force) over in-memory datasets of "
-        "1-40 events and 1-4 scalar features (+index) with dyadic values, "
-        "ties, NaN and +-inf; a case is non-trivial when it applies at least "
-        "twice with a settings change in between and some application "
-        "selects a proper non-empty subset; distinct = different "
+        "apply_filter (optionally with force), temporary features set on / "
+        "deregistered from the dataset (ranges configured before the "
+        "feature exists), over in-memory datasets of "
+        "1-40 events and 1-4 scalar features (+index, 0-2 temporary) with "
+        "dyadic values, ties, NaN and +-inf; a case is non-trivial when it "
+        "applies at least twice with a settings change in between and some "
+        "application selects a proper non-empty subset; distinct = different "
         "(data, polygons, ops)")
 TRUSTED_BASE = [
     "oracle choice_spec: the seeded np.random.choice used by "
@@ -43,8 +45,9 @@ TRUSTED_BASE = [
     "float comparisons are exact on the generated dyadic values; rounding is "
     "not modelled",
     "not modelled: warnings, KeyError for a polygon id without instance, "
-    "ValueError for an unknown feature name in `force`, change of the "
-    "feature set of a dataset, hierarchy parent",
+    "ValueError for an unknown feature name in `force`, hierarchy parent "
+    "(a hierarchy child runs the same Filter.update; its feature set follows "
+    "the parent's, which is the AddFeat/DelFeat case)",
 ]
 ASSUMPTIONS = [
     "the selection is specified after applications that do not raise; an "
@@ -53,17 +56,33 @@ ASSUMPTIONS = [
     "polygon ids in the settings refer to existing PolygonFilter instances "
     "whose axes are features of the dataset",
     "0 <= 'limit events' < 2**32 or negative (uint32 conversion not modelled)",
-    "the set of scalar features of the dataset does not change",
+    "the DATA of a feature never changes: calling set_temporary_feature "
+    "again on an existing temporary feature replaces its data, and the box "
+    "and polygon caches carry no data hash, so the old mask stays until the "
+    "range changes, `force` names the feature or reset_filter() is called "
+    "(observed on HEAD: data [0,1,2,3] -> [1,1,5,5], range [1,2]: "
+    "filter.all stays [F,T,T,F]); replacing feature data is not an "
+    "operation of C03's quantifier (cache/data coherence is C06/C17). The "
+    "feature SET may change (temporary features appearing/disappearing is "
+    "modelled: AddFeat/DelFeat, pruning in _init_rtdc_ds)",
+    "polygon filters use features that are always part of the dataset (a "
+    "polygon on a vanished feature makes update raise KeyError)",
+    "ranges of a deregistered temporary feature are not edited and are not "
+    "half-set at deregistration (ConfigurationDict refuses keys of unknown "
+    "features; Filter.update ignores them)",
 ]
 
 POOL = ["area_um", "aspect", "bright_avg", "deform", "tilt", "pos_x"]
 
 T_SETRANGE, T_DELRANGE, T_ADDPOLY, T_RMPOLY, T_MODPOLY, T_INVPOLY, \
     T_INVALID, T_ENABLE, T_LIMIT, T_MANUAL, T_RESET, T_APPLY, \
-    T_SETMIN, T_SETMAX, T_DELMIN, T_DELMAX = range(16)
+    T_SETMIN, T_SETMAX, T_DELMIN, T_DELMAX, T_ADDFEAT, T_DELFEAT = range(18)
 OPNAMES = ["SetRange", "DelRange", "AddPoly", "RmPoly", "ModPoly",
            "InvertPoly", "SetInvalid", "SetEnable", "SetLimit", "EditManual",
-           "Reset", "Apply", "SetMin", "SetMax", "DelMin", "DelMax"]
+           "Reset", "Apply", "SetMin", "SetMax", "DelMin", "DelMax",
+           "AddFeat", "DelFeat"]
+TEMP = ["vtmp_a", "vtmp_b"]      # temporary features (registered on demand)
+VARIANT = 3                      # repairs of Filter.update present in the model
 RANGE_TAGS = (T_SETRANGE, T_DELRANGE, T_SETMIN, T_SETMAX, T_DELMIN, T_DELMAX)
 
 
@@ -159,7 +178,12 @@ def gen_case(rng, thorough=False, maxops=60):
     npoly = rng.choice([0, 1, 2, 2, 3])
     reg = [[i, rng.randrange(nver), rng.choice([0, 0, 1])]
            for i in range(npoly)]
-    rfeats = present + ["index"] + absent     # features ranges may name
+    temp = {}
+    for name in TEMP[:rng.choice([0, 1, 1, 2])]:
+        temp[name] = gen_column(rng, n)
+        cols[name] = temp[name]
+    tstate = {name: "unset" for name in temp}   # unset / present / deregistered
+    rfeats = present + ["index"] + absent + sorted(temp)   # features ranges may name
     ops = []
     nops = rng.randint(1, maxops)
     have = set()
@@ -182,7 +206,21 @@ def gen_case(rng, thorough=False, maxops=60):
     for _ in range(nops):
         if ops:
             track(ops[-1])
-        half = sorted(f for f, ks in keys.items() if len(ks) == 1)
+        # ranges of a deregistered temporary feature cannot be edited
+        rfeats = [f for f in present + ["index"] + absent + sorted(temp)
+                  if tstate.get(f) != "deregistered"]
+        if temp and rng.random() < 0.07:
+            name = rng.choice(sorted(temp))
+            if tstate[name] == "present" and len(keys.get(name, ())) != 1 \
+                    and rng.random() < 0.5:
+                ops.append([T_DELFEAT, [name], []])
+                tstate[name] = "deregistered"
+            else:
+                ops.append([T_ADDFEAT, [name], []])
+                tstate[name] = "present"
+            continue
+        half = sorted(f for f, ks in keys.items() if len(ks) == 1
+                      and tstate.get(f) != "deregistered")
         if half and rng.random() < 0.4:
             # complete or drop the range that has one key only
             f = rng.choice(half)
@@ -195,9 +233,9 @@ def gen_case(rng, thorough=False, maxops=60):
                 ops.append([T_DELMIN if has == "min" else T_DELMAX, [f], []])
             continue
         r = rng.random()
-        if r < 0.04 and hist:
+        if r < 0.04 and [f for f in hist if f in rfeats]:
             # back to a range this feature had before
-            f = rng.choice(sorted(hist))
+            f = rng.choice(sorted(f for f in hist if f in rfeats))
             lo, hi = rng.choice(hist[f])
             ops.append([T_SETRANGE, [f], [lo, hi]])
             have.add(f)
@@ -226,7 +264,8 @@ def gen_case(rng, thorough=False, maxops=60):
             hist.setdefault(f, []).append([lo, hi])
             have.add(f)
         elif r < 0.34:
-            f = rng.choice(sorted(have)) if have and rng.random() < 0.85 \
+            cand = sorted(f for f in have if f in rfeats)
+            f = rng.choice(cand) if cand and rng.random() < 0.85 \
                 else rng.choice(rfeats)
             ops.append([T_DELRANGE, [f], []])
             have.discard(f)
@@ -266,9 +305,9 @@ def gen_case(rng, thorough=False, maxops=60):
                 force = [rng.choice(rfeats)
                          for _ in range(rng.randint(1, 2))]
             ops.append([T_APPLY, force, []])
-    if rng.random() < 0.12 and len(rfeats) >= 2:
+    if rng.random() < 0.12:
         # an application that raises between two settings of the same range
-        g, f = rng.sample(rfeats, 2)
+        g, f = rng.sample(present + ["index"] + absent, 2)
         cg = cols.get(g, [[0, 0], [0, 8]])
         ra = [gen_bound(rng, cg), gen_bound(rng, cg)]
         rb = [gen_bound(rng, cg), gen_bound(rng, cg)]
@@ -280,8 +319,8 @@ def gen_case(rng, thorough=False, maxops=60):
         k = rng.randint(0, len(ops))
         ops[k:k] = seq
     ops.append([T_APPLY, [], []])
-    return dict(n=n, data=data, absent=absent, versions=versions, reg=reg,
-                ops=ops)
+    return dict(n=n, data=data, absent=absent, temp=temp, versions=versions,
+                reg=reg, ops=ops)
 
 
 # --------------------------------------------------------------------------
@@ -371,6 +410,8 @@ def run_impl(case, want_trace=False):
     """
     import numpy as np
     import dclab
+    from dclab import definitions as dfn
+    from dclab.rtdc_dataset import feat_temp
     from dclab.polygon_filter import PolygonFilter
 
     PolygonFilter.clear_all_filters()
@@ -378,9 +419,16 @@ def run_impl(case, want_trace=False):
     ddict = {f: np.array([fv2float(p) for p in col], dtype=np.float64)
              for f, col in case["data"].items()}
     ds = dclab.new_dataset(ddict)
-    feats = list(ds.features_scalar)
-    names = feats + [a for a in case["absent"] if a not in feats]
+    temp = case.get("temp", {})
+    for name in temp:
+        if not dfn.scalar_feature_exists(name):
+            dclab.register_temporary_feature(name, is_scalar=True)
+    feats = list(ds.features_scalar)          # before any temporary feature
+    # feature numbers are ordered like the names (np.unique sorts names)
+    names = sorted(set(feats) | set(case["absent"]) | set(temp))
     cols = {f: np.array(ds[f], dtype=np.float64) for f in feats}
+    for name, col in temp.items():
+        cols[name] = np.array([fv2float(p) for p in col], dtype=np.float64)
     versions = case["versions"]
     pfs = {}
     for pid, v, inv in case["reg"]:
@@ -418,6 +466,14 @@ def run_impl(case, want_trace=False):
             dirty = True
         elif tag in (T_DELMIN, T_DELMAX):
             cfg.pop(a[0] + (" min" if tag == T_DELMIN else " max"), None)
+            dirty = True
+        elif tag == T_ADDFEAT:
+            if not dfn.scalar_feature_exists(a[0]):
+                dclab.register_temporary_feature(a[0], is_scalar=True)
+            dclab.set_temporary_feature(ds, a[0], cols[a[0]])
+            dirty = True
+        elif tag == T_DELFEAT:
+            feat_temp.deregister_temporary_feature(a[0])
             dirty = True
         elif tag == T_ADDPOLY:
             ds.polygon_filter_add(pfs[a[0]])
@@ -544,8 +600,12 @@ def run_impl(case, want_trace=False):
     ins = [inside_fresh(ds, ver["axes"], ver["points"]) for ver in versions]
     rows = []
     for e in range(n):
-        rows.append(([float2fv(float(cols[f][e])) for f in feats],
+        rows.append(([float2fv(float(cols[f][e])) if f in cols else [1, 0]
+                      for f in names],
                      [bool(x[e]) for x in ins]))
+    for name in temp:
+        if not dfn.scalar_feature_exists(name):
+            dclab.register_temporary_feature(name, is_scalar=True)
     res = dict(flat=flat, fail=fail,
                nontrivial=bool(proper and changed_between),
                feats=feats, names=names, rows=rows, choice=choice,
@@ -571,7 +631,7 @@ def tlist(items, typ):
     return common.clist(items)
 
 
-def render(case, res, see_removed=1):
+def render(case, res, variant=VARIANT):
     names = res["names"]
     nid = {f: i for i, f in enumerate(names)}
     rows = common.clist(
@@ -585,7 +645,7 @@ def render(case, res, see_removed=1):
                 "Z * Z * list Z")
     ops = []
     for tag, a, fv in case["ops"]:
-        if tag in RANGE_TAGS:
+        if tag in RANGE_TAGS or tag in (T_ADDFEAT, T_DELFEAT):
             ints = [nid.get(a[0], len(names))]
         elif tag == T_APPLY:
             ints = [nid.get(f, len(names)) for f in a]
@@ -595,7 +655,7 @@ def render(case, res, see_removed=1):
                                      tlist((common.zlit(x) for x in ints),
                                            "Z"),
                                      tlist((r_fv(p) for p in fv), "Z * Z")))
-    return "(%d, %s, %s, %s, %s, %s)" % (see_removed, rows, feats, reg, tab,
+    return "(%d, %s, %s, %s, %s, %s)" % (variant, rows, feats, reg, tab,
                                           common.clist(ops))
 
 
@@ -646,6 +706,92 @@ def check_choice_oracle(run, pairs):
             run.notes.append("pool %d limit %d: Filter kept ranks %s, "
                              "downsample_rand on its own keeps %s" % (
                                  m, k, ranks, res[0]))
+
+
+# --------------------------------------------------------------------------
+# exhaustive small scope (thorough tier)
+# --------------------------------------------------------------------------
+EXH_ALPHABET = [
+    ("SetRange area_um [1, 2]", [T_SETRANGE, ["area_um"], [[0, 8], [0, 16]]]),
+    ("SetRange area_um [4, 3]", [T_SETRANGE, ["area_um"], [[0, 32], [0, 24]]]),
+    ("DelRange area_um", [T_DELRANGE, ["area_um"], []]),
+    ("SetMin deform 0.25", [T_SETMIN, ["deform"], [[0, 2]]]),
+    ("SetMax deform 0.75", [T_SETMAX, ["deform"], [[0, 6]]]),
+    ("DelMin deform", [T_DELMIN, ["deform"], []]),
+    ("AddPoly 0", [T_ADDPOLY, [0], []]),
+    ("InvertPoly 0", [T_INVPOLY, [0], []]),
+    ("SetLimit 2", [T_LIMIT, [2], []]),
+    ("SetInvalid 1", [T_INVALID, [1], []]),
+    ("SetEnable 0", [T_ENABLE, [0], []]),
+    ("Reset", [T_RESET, [], []]),
+    ("AddFeat vtmp_a", [T_ADDFEAT, ["vtmp_a"], []]),
+    ("SetRange vtmp_a [1, 2]", [T_SETRANGE, ["vtmp_a"], [[0, 8], [0, 16]]]),
+    ("Apply", [T_APPLY, [], []]),
+]
+EXH_MAXLEN = 4
+EXH_COUNT = sum(len(EXH_ALPHABET) ** k for k in range(1, EXH_MAXLEN + 1))
+RULE += (". Thorough tier additionally: EXHAUSTIVE sweep of all %d operation "
+         "sequences of length 1..%d over a %d-letter alphabet (EXH_ALPHABET) "
+         "on one fixed 4-event dataset, each followed by a final Apply" % (
+             EXH_COUNT, EXH_MAXLEN, len(EXH_ALPHABET)))
+
+
+def exhaustive_cases():
+    """every operation sequence of length 1..EXH_MAXLEN over EXH_ALPHABET
+    (a final Apply is appended) on one 4-event dataset with area_um, deform
+    (one NaN), index, a temporary feature and one polygon"""
+    import itertools
+    base = dict(
+        n=4,
+        data={"area_um": [[0, 8], [0, 16], [0, 24], [0, 32]],
+              "deform": [[0, 2], [1, 0], [0, 4], [0, 6]]},
+        absent=[], temp={"vtmp_a": [[0, 0], [0, 8], [0, 16], [0, 24]]},
+        versions=[{"axes": ["area_um", "index"],
+                   "points": [[4, 4], [20, 4], [20, 20], [4, 20]]}],
+        reg=[[0, 0, 0]])
+    for k in range(1, EXH_MAXLEN + 1):
+        for seq in itertools.product(range(len(EXH_ALPHABET)), repeat=k):
+            ops = [EXH_ALPHABET[i][1] for i in seq] + [[T_APPLY, [], []]]
+            yield dict(base, ops=ops)
+
+
+def _impl_job(case):
+    res = run_impl(case)
+    return res["flat"], render(case, res), res["fail"], res["nontrivial"]
+
+
+def exhaustive_sweep(run):
+    import multiprocessing
+    cases = list(exhaustive_cases())
+    assert len(cases) == EXH_COUNT
+    try:
+        ctx = multiprocessing.get_context("fork")
+        with ctx.Pool(min(12, common.NCPU)) as pool:
+            results = pool.map(_impl_job, cases, chunksize=200)
+    except Exception as e:      # no fork / pool: serial
+        run.notes.append("exhaustive sweep ran serially: %r" % (e,))
+        results = [_impl_job(c) for c in cases]
+    nfail = 0
+    for c, (flat, rend, fail, nontrivial) in zip(cases, results):
+        run.record_case(c, nontrivial, sample=False)
+        if fail is not None:
+            nfail += 1
+            run.oracle_failure(c, fail, classify(c, fail))
+    model = common.coq_map(run.scratch, "c03x", HEADER, "run_flat",
+                           [r[1] for r in results], shard=600)
+    ndis = 0
+    for c, m, r in zip(cases, model, results):
+        run.corr_checked += 1
+        if m != r[0]:
+            ndis += 1
+            run.mismatch(c, m, r[0])
+    run.count("exhaustive-sequences", len(cases))
+    run.extra["exhaustive_small_scope"] = dict(
+        exhaustive=True, max_len=EXH_MAXLEN,
+        alphabet=[a[0] for a in EXH_ALPHABET], sequences=len(cases),
+        dataset="4 events; area_um, deform (one NaN), index, temporary "
+                "feature vtmp_a; one polygon",
+        oracle_failures=nfail, disagreements=ndis)
 
 
 def run(run):
@@ -700,6 +846,8 @@ def run(run):
         run.corr_checked += 1
         if m != i:
             run.mismatch(c, m, i)
+    if run.thorough:
+        exhaustive_sweep(run)
 
 
 # --------------------------------------------------------------------------
@@ -734,7 +882,9 @@ def shrink(run, failure):
                 break
             cand = dict(small, n=small["n"] - 1,
                         data={f: col[:e] + col[e + 1:]
-                              for f, col in small["data"].items()})
+                              for f, col in small["data"].items()},
+                        temp={f: col[:e] + col[e + 1:]
+                              for f, col in small.get("temp", {}).items()})
             if _fails(cand):
                 small = cand
                 changed = True
